@@ -332,6 +332,7 @@ impl<'tx> TxInner<'tx> {
             // the file and then failed to map it again. Every page of this commit must be mapped.
             let mapped_size = self.db.inner.data.lock()?.len() as u64;
             if current_size >= required_size && mapped_size < required_size {
+                verif_at!(CommitBeforeGrow, true);
                 let data = self.db.inner.resize(file, current_size)?;
                 self.pages = Pages::new(data, self.db.inner.pagesize);
             }
